@@ -298,6 +298,10 @@ def plan(tier):
         sh.append({'e1': e, 'K': 1, 'n0': 2, 'beh': 0, 'var': 'send_hup', 'dmax': 6})
     for e in (scen.EV_INCR, scen.EV_DECR, scen.EV_SETNP, scen.EV_RELOAD, scen.EV_CHECK):
         sh.append({'e1': e, 'K': 1, 'n0': 2, 'beh': 0, 'var': 'max_age', 'dmax': 8})
+    if q:
+        # workers that ignore the stop signal (graceful_timeout 0.2 s is reached exactly by the 0.1 s polling steps)
+        for e in (scen.EV_DECR, scen.EV_SETNP, scen.EV_RELOAD):
+            sh.append({'e1': e, 'K': 1, 'n0': 2, 'beh': 2, 'dmax': 4})
     # a signal request (plain / recursive / children / one pid) to workers that survive it: no spawn, reap or kill event is due
     sh.append(dict({'e1': scen.EV_SIGNALCMD, 'K': 2 if q else 3, 'n0': 2, 'beh': 3}, **({'pmin': 0, 'pmax': 1} if q else {})))
     sh.append({'e1': scen.EV_SIGNALCMD, 'K': 1, 'n0': 2, 'beh': 3, 'dmax': 8})
